@@ -10,8 +10,6 @@ import (
 	"github.com/avos-io/goat/gen/testproto"
 )
 
-
-
 // H_C11_client_extra: a peer that sends more than expected. A stream (mode 0) or a unary
 // call (mode 1) has ended on the client; the peer sends r further envelopes for its id and
 // then the reply of a probe unary call. The probe must complete with its own reply.
